@@ -92,6 +92,9 @@ pub struct Src {
     /// further one-shot failures (kind Other) at these global call indices (sweeps that need more
     /// than one transient failure; not part of `Env`)
     pub more_faults: Vec<usize>,
+    /// a source that reports "no more data for now" once: the first read at this offset returns
+    /// Ok(0), later reads go on delivering (a file that is still being written)
+    pub pause_at: Option<usize>,
     ok_reads: usize,
     pub sh: Rc<SrcShared>,
 }
@@ -109,6 +112,7 @@ impl Src {
             int,
             fault,
             more_faults: vec![],
+            pause_at: None,
             ok_reads: 0,
             sh,
         }
@@ -154,6 +158,10 @@ impl Read for Src {
         if buf.is_empty() || self.pos >= self.data.len() {
             return Ok(0);
         }
+        if self.pause_at == Some(self.pos) {
+            self.pause_at = None;
+            return Ok(0);
+        }
         let remaining = self.data.len() - self.pos;
         let want = match self.chunk {
             Chunk::All => remaining,
@@ -177,7 +185,13 @@ impl Read for Src {
                 n
             }
         };
-        let n = want.min(remaining).min(buf.len());
+        let mut n = want.min(remaining).min(buf.len());
+        if let Some(p) = self.pause_at {
+            // a read never crosses the offset at which the source pauses
+            if self.pos < p {
+                n = n.min(p - self.pos);
+            }
+        }
         buf[..n].copy_from_slice(&self.data[self.pos..self.pos + n]);
         self.pos += n;
         self.sh.pos.set(self.pos);
@@ -216,6 +230,9 @@ pub enum PolKind {
     DoubleUntil(usize),
     /// the crate's DoubleUntilLimited(t, limit)
     Limited(usize, usize),
+    /// the documented arithmetic of DoubleUntilLimited(t, limit), written independently: double below
+    /// t, add t from t on, refuse a size above the limit
+    DocLimited(usize, usize),
     /// doubling, refuses any size above M
     RefuseAbove(usize),
     /// +1, refuses any size above M
@@ -246,6 +263,14 @@ impl BufPolicy for HPolicy {
             PolKind::Plus1 => Some(cur + 1),
             PolKind::DoubleUntil(t) => DoubleUntil(t).grow_to(cur),
             PolKind::Limited(t, l) => DoubleUntilLimited::new(t, l).grow_to(cur),
+            PolKind::DocLimited(t, l) => {
+                let new = if cur < t { cur * 2 } else { cur + t };
+                if new > l {
+                    None
+                } else {
+                    Some(new)
+                }
+            }
             PolKind::RefuseAbove(m) => {
                 if cur * 2 > m {
                     None
